@@ -1066,7 +1066,7 @@ IS_ZERO_SIMPLIFY_LIMIT = 250
 def show(e, n=200) -> str:
     """text of an expression for a report: simplified when that is cheap"""
     try:
-        if sp.count_ops(e) <= IS_ZERO_SIMPLIFY_LIMIT:
+        if sp.count_ops(e) <= 60:  # (a report text is not worth minutes of sympy: larger expressions are shown as they are)
             e = sp.simplify(e)
     except Exception:
         pass
